@@ -43,13 +43,18 @@ VARIANTS = {
     "san": dict(cc="gcc", shim=True, guard=True,
                 cflags=["-O1", "-g", "-fno-omit-frame-pointer",
                         "-fsanitize=address,bounds,null,unreachable",
-                        "-fno-sanitize-recover=all"],
+                        # bounds reports are collected from stderr and filtered
+                        # against BENIGN_UB in core.py (row-overrun inside one
+                        # 2D table object is not a buffer overrun)
+                        "-fno-sanitize-recover=null,unreachable",
+                        "-fsanitize-recover=bounds"],
                 ldflags=["-fsanitize=address,bounds,null,unreachable"]),
     # hostile initial contents of autos: C13/C20 thorough tier
     "pat": dict(cc="gcc", shim=True, guard=True,
                 cflags=["-O1", "-g", "-fno-omit-frame-pointer",
                         "-fsanitize=address,bounds,null,unreachable",
-                        "-fno-sanitize-recover=all",
+                        "-fno-sanitize-recover=null,unreachable",
+                        "-fsanitize-recover=bounds",
                         "-ftrivial-auto-var-init=pattern"],
                 ldflags=["-fsanitize=address,bounds,null,unreachable"]),
     # coverage evidence only
